@@ -531,7 +531,7 @@ pub fn run(c: &mut Ctx) {
         let extra = c.n(200, 2000);
         for _ in 0..extra {
             let s = c.rng.range(9_223_372_036, i64::MAX / 1000);
-            let n = c.rng.below(1_000_000_000) as u32;
+            let n = c.rng.nanos();
             if let Some(d) = TimeDelta::new(s, n) {
                 v.push(d);
             }
@@ -630,7 +630,7 @@ pub fn run(c: &mut Ctx) {
     for _ in 0..n_leap {
         let span = gen_span(c, &specials);
         let secs = c.rng.range(-9_223_372_000 / 60, 9_223_372_000 / 60) * 60 + 59;
-        let frac = 1_000_000_000 + if c.rng.chance(1, 3) { *c.rng.pick(&[0u32, 1, 499_999_999, 500_000_000, 500_000_001, 999_999_999]) } else { c.rng.below(1_000_000_000) as u32 };
+        let frac = 1_000_000_000 + if c.rng.chance(1, 3) { *c.rng.pick(&[0u32, 1, 499_999_999, 500_000_000, 500_000_001, 999_999_999]) } else { c.rng.nanos() };
         if let Some(u) = DateTime::<Utc>::from_timestamp(secs, frac) {
             let off = if c.rng.chance(1, 2) { 0 } else { (c.rng.range(-1439, 1439) * 60) as i32 };
             case(c, u.naive_utc(), TimeDelta::nanoseconds(span), "leap");
@@ -716,7 +716,7 @@ pub fn run(c: &mut Ctx) {
         let digits = if c.rng.chance(7, 8) { c.rng.below(11) as u16 } else { c.rng.next() as u16 };
         let span = 10u32.pow(9 - digits.min(9) as u32);
         let frac = match c.rng.below(4) {
-            0 => c.rng.below(1_000_000_000) as u32,
+            0 => c.rng.nanos(),
             1 => {
                 // multiples of the span +-1 and ties +-1
                 let m = c.rng.below((1_000_000_000 / span) as u64 + 1) as u32;
